@@ -34,10 +34,12 @@ def param_grid(ctx, rng):
         out.append(('teleport', {'shape': [h, w]}, small))
         for cs in COLORSETS:
             out.append(('memory', {'shape': [h, w], 'colors': cs}, True))
-        for layout in [(1, 1), (2, 2), (2, 1), (3, 3), (0, 1), (1, 3)]:
-            for cs in COLORSETS[:5]:
+        for layout in itertools.product(range(0, 4), repeat=2):
+            for ci, cs in enumerate(COLORSETS[:5]):
                 for (nb, ne) in [(1, 2), (0, 2), (1, 1), (2, 3), (1, 5), (3, 2), (30, 2)]:
-                    if ctx.quick and (h * 3 + w + nb + ne + len(cs)) % 3:
+                    # every layout gets the standard request; the variations are spread over shapes
+                    standard = ci == 0 and (nb, ne) == (1, 2)
+                    if not standard and ctx.quick and (h * 3 + w + nb + ne + len(cs) + layout[0] * 5 + layout[1]) % 7:
                         continue
                     out.append(('memory_rooms', {'shape': [h, w], 'layout': list(layout), 'colors': cs, 'num_beacons': nb, 'num_exits': ne}, False))
     return out
